@@ -77,5 +77,15 @@ claim("C17", "other",
       ASSUME,
       "taint-to-sink with sanitiser (QuoteMeta) on SSA + who-may-call + constant evaluation", "DESIGN.md 4 C17")
 
+
+claim("C05", "other",
+      "Static rule set: for each of the 67 registered commands the handler-call signature extracted symbolically from the executor's SSA (request position -> handler parameter through which conversion; option keyword -> option field; constant options; rest/pairs collectors in cursor order; derived commands as call sequences; the executor's own connection; result passed through) equals the row of an oracle table reviewed against the Redis command reference and the handler interface; command names are looked up upper-cased, registered names and case constants under upper-cased tags are upper case; an unknown command reaches no executor; direct commands return the handler's result unchanged and the connection loop replies with it; parsed payload bytes are owned copies. Decides argument routing for all commands and all argument values at once.",
+      ASSUME + " The oracle table (/verif/tables/commands.json) is hand-reviewed; []byte<->string conversion is the identity; strconv corner cases are assumed.",
+      "symbolic extraction over SSA (positions by dominance, terms by backward slicing, callee inlining) compared with an independent table", "DESIGN.md 4 C05")
+claim("C10", "other",
+      "Static error-use discipline over all executors and argument helpers: every extraction result is used only under its nil-error test (default-value, loop-carried and store-then-test idioms recognised); numeric accessors delegate to strconv; no constructed rejection is dropped; the places tolerating end-of-arguments equal the confirmed inventory; collectors are non-empty and later parts of an element / option values are mandatory; SET option stores are dominated by rejecting tests covering their exclusivity group and expiry >= 1; no argument is read after a handler call (no partial execution); rejected requests keep the connection. Decides rejection-before-execution for every command and every argument position at once.",
+      ASSUME + " Inventory table /verif/tables/optional_tails.json confirmed by reading; error texts and range rules outside the property are not decided.",
+      "error-use dataflow (dominance gates, phi-edge facts) + inventory comparison + path reachability on SSA", "DESIGN.md 4 C10")
+
 for _k in list(CLAIMS):
     NA.pop(_k, None)
